@@ -119,6 +119,15 @@ TAuditTamper ==
   /\ ~Ev.accepted
   /\ Same
 
+(* C11: a second instance opened at a crash point (part of the commit's records written, epoch *)
+(* record not yet): the observations that follow are validated against the state BEFORE the   *)
+(* publish, because the publish event itself is only consumed afterwards.                     *)
+TCrash ==
+  /\ IsEv("crash")
+  /\ Ev.azks_last            \* the commit batch ends with the epoch record
+  /\ Ev.applied < Ev.of      \* the epoch record was not applied
+  /\ Same
+
 (* C19: the protobuf wire path is the identity on proofs and on verification results *)
 TWire ==
   /\ IsEv("wire")
@@ -132,7 +141,7 @@ TReopen ==
 
 TNext ==
   \/ TReset \/ TPublish \/ TTombstone \/ TEpochHash \/ TLookup \/ TBatchLookup
-  \/ THistory \/ TAudit \/ TAuditTamper \/ TWire \/ TReopen
+  \/ THistory \/ TAudit \/ TAuditTamper \/ TWire \/ TReopen \/ TCrash
 
 TSpec == TInit /\ [][TNext]_tvars
 
